@@ -192,7 +192,36 @@ def _wave_energy(ck, D, N):
         ef = [En.re == Ep.re, En.im == -Ep.im, Ep.re * Ep.re + Ep.im * Ep.im == 1]
         e_in = sym.radd(sym.cabs2(sym.asc(uh[(1,) + idx])), sym.rmul(w2, sym.cabs2(sym.asc(uh[(0,) + idx]))))
         e_out = sym.radd(sym.cabs2(sym.asc(enc.outs[0][(1,) + idx])), sym.rmul(w2, sym.cabs2(sym.asc(enc.outs[0][(0,) + idx]))))
-        ck.add(f"wave/D{D}N{N}/energy/{'_'.join(map(str, idx))}", sym.rcmp("eq", e_out, e_in), pre + ef, family="wave: spectral energy per mode conserved", timeout=120)
+        ck.add(f"wave/D{D}N{N}/energy/{'_'.join(map(str, idx))}", sym.rcmp("eq", e_out, e_in), pre + ef, family="wave: spectral energy per mode conserved", timeout=120,
+               replay=_wave_energy_replay(D, N, idx, m))
+
+
+def _wave_energy_replay(D, N, idx, m):
+    def replay(model):
+        import math
+        from fractions import Fraction as F
+
+        def g(n, d):
+            v = model.get(n)
+            return float(v) if isinstance(v, F) else d
+
+        # the model's (L, c, dt) first, then stress points (large and small domains)
+        for L, c, dt in [(g("L", 1.3), g("c", 1.1), g("dt", 0.3)), (20.0, 1.0, 0.7), (31.0, 0.5, 1.3), (0.5, 2.0, 0.2)]:
+            if L <= 0 or c <= 0:
+                continue
+            st = S.Wave(D, L, N, dt, speed_of_sound=c)
+            uh = np.zeros((2,) + orc.spectrum_shape(D, N), dtype=complex)
+            uh[(0,) + idx] = 0.7 - 0.2j
+            uh[(1,) + idx] = -0.4 + 0.9j
+            out = np.asarray(st.step_fourier(jnp.asarray(uh)))
+            w2 = (c * 2 * math.pi / L) ** 2 * sum(x * x for x in m)
+            e0 = abs(uh[(1,) + idx]) ** 2 + w2 * abs(uh[(0,) + idx]) ** 2
+            e1 = abs(out[(1,) + idx]) ** 2 + w2 * abs(out[(0,) + idx]) ** 2
+            if abs(e1 - e0) > 1e-9 * (1 + e0):
+                return {"reproduced": True, "detail": f"Wave(D={D},L={L},N={N},dt={dt},c={c}) mode {m}: spectral energy {e0:.6g} -> {e1:.6g} in one step"}
+        return {"reproduced": False, "detail": "spectral wave energy conserved at the model's and the stress parameter points"}
+
+    return replay
 
 
 def _monolithic(ck, N):
